@@ -90,7 +90,8 @@ class FlightDriver:
             rec["obj"] = Err(n)
             raise rec["obj"]
 
-        deco = cache(limit=limit, expiration=float(expn) if expn else None)
+        # (with the default parameters the decorator is used bare: `@cache`)
+        deco = cache if limit == 1 and not expn else cache(limit=limit, expiration=float(expn) if expn else None)
         if self.method:
             class Holder:
                 @deco
